@@ -571,6 +571,18 @@ def check(ctx):
             if r[0] != "ok" or not isinstance(r[1], (int, float)) or abs(float(r[1]) - exp) > TOL:
                 ctx.violation("poisson-float-range", text, "%.12g" % exp, repr(r), "ctx.real.value(%r)" % text)
 
+    # upper tails of large-rate Poissons at thresholds FAR BELOW the mean (the pmf there underflows to exactly 0.0; the tail is 1), at
+    # the mean and above it, in every single form and with the complement
+    for mu in (746, 800, 1000) + ((2500,) if not ctx.quick() else ()):
+        for t_ in (0, 1, 3, mu // 4, mu, mu + 40):
+            up = 1.0 - (ref_pois_cdf(mu, t_) if t_ >= 0 else 0.0)
+            for text, exp in (("P(Poisson(%d) > %d)" % (mu, t_), up), ("P(%d < Poisson(%d))" % (t_, mu), up),
+                              ("P(Poisson(%d) >= %d)" % (mu, t_ + 1), up), ("P(%d <= Poisson(%d))" % (t_ + 1, mu), up)):
+                r = run(text)
+                ctx.count("poisson-range:" + text, bucket="poisson-large-upper-tail")
+                if r[0] != "ok" or not isinstance(r[1], (int, float)) or abs(float(r[1]) - exp) > 1e-9:
+                    ctx.violation("poisson-float-range:" + text, text, "%.12g" % exp, repr(r), "ctx.real.value(%r)" % text)
+
     # ---------------- Binomial with a float p beyond the float range of choose(n, x) (oracle only) ----------------
     def ref_binom(n, p_, lo_, hi_):
         q = Fraction(p_)
